@@ -20,7 +20,18 @@ LENFUNCS = {'memcpy': (0, 2), 'memset': (0, 2), 'memmove': (0, 2), 'fread': (0, 
 
 # IntType enumerator -> (min, max) filled from asmpars.c IntTypeDefs at run time
 EXCEPTIONS = {
+    'p2bin.c:ProcessFile:Buffer[ResLen++]':
+        'ResLen counts a subset of the iterations of a loop bounded by TransLen = min(BufferSize, ErgLen)',
+    'p2bin.c:ProcessFile:fwrite(Buffer,len=ResLen)':
+        'ResLen <= TransLen = min(BufferSize, ErgLen) (relational; the min() definition is checked for TransLen)',
+    'p2hex.c:ProcessFile:fread(Buffer,len=TransLen)':
+        'TransLen = min(LineLen, ErgLen) and later redefinitions only shrink it; LineLen <= MaxLineLen is enforced '
+        'by its option writer (supporting check: every store to LineLen is bounded by the buffer size)',
 }
+
+
+def is_generator(un):
+    return (un.startswith('code') and un not in ('codechunks.c', 'codepseudo.c')) or un.startswith('deco')
 
 
 def array_size(P, f, base):
@@ -35,7 +46,9 @@ def array_size(P, f, base):
     if b[0] == 'l':
         t = f.locals.get(b[1])
     elif b[0] == 'p':
-        return None
+        for p in f.params:
+            if p['name'] == b[1] and 'otype' in p:
+                t = p['otype']
     elif b[0] in GLOBKINDS:
         gi = P.ginfo(f, b[0], b[1])
         t = gi['type'] if gi else None
@@ -124,6 +137,120 @@ def lower_bound_ok(f, bid, i, var):
     return f.guarded(bid, i, lambda l: edge_has_atom(l, want))
 
 
+def assigns_const_in(var, lo, hi):
+    def pred(ex):
+        for m in walk_own(ex):
+            if is_assign(m) and m[1] == '=' and strip(m[2]) == var:
+                c = const_val(m[3])
+                if c is not None and lo <= c <= hi:
+                    return True
+        return False
+    return pred
+
+
+def bounded_at(P, f, bid, i, var, N, need_lower, depth=2):
+    """var in [0, N-1] at the site: by guards, by clamping assignments, or (for
+    a parameter) at every call site."""
+    def up_want(a):
+        if a[0] == 'cmp' and a[2] == var:
+            c = const_val(a[3])
+            if c is None:
+                return False
+            return (a[1] == '<' and c <= N) or (a[1] in ('<=', '==') and c < N)
+        if a[0] == 'nz' and isinstance(a[1], tuple) and a[1][0] == 'call' and a[1][1] == ('fn', 'ChkRange'):
+            args = a[1][2]
+            return len(args) == 3 and args[0] == var and const_val(args[2]) is not None and const_val(args[2]) < N
+        return False
+
+    def lo_want(a):
+        if a[0] == 'cmp' and a[2] == var:
+            c = const_val(a[3])
+            if c is None:
+                return False
+            return (a[1] == '>=' and c >= 0) or (a[1] == '>' and c >= -1) or (a[1] == '==' and c >= 0)
+        if a[0] == 'nz' and isinstance(a[1], tuple) and a[1][0] == 'call' and a[1][1] == ('fn', 'ChkRange'):
+            args = a[1][2]
+            return len(args) == 3 and args[0] == var and (const_val(args[1]) if const_val(args[1]) is not None else -1) >= 0
+        return False
+    clamp = assigns_const_in(var, 0, N - 1)
+    if any((is_incdec(m) or (is_assign(m) and m[1] != '=')) and strip(m[2]) == var for b, j, l, m in f.nodes()):
+        clamp = None   # counters are not clamped by their initialisation
+    up, w = f.guarded(bid, i, lambda l: edge_has_atom(l, up_want), clamp)
+    lo = True
+    if need_lower:
+        lo, w2 = f.guarded(bid, i, lambda l: edge_has_atom(l, lo_want), clamp)
+        if up and not lo:
+            w = w2
+    if up and lo:
+        return True, 'guard/clamp'
+    if var[0] == 'p' and depth > 0:
+        names = [p['name'] for p in f.params]
+        if var[1] in names and not any((is_assign(m) or is_incdec(m)) and strip(m[2]) == var for b, j, l, m in f.nodes()):
+            pi = names.index(var[1])
+            sites = call_sites(P, f)
+            if sites:
+                for (g, b2, i2, ln, n, direct) in sites:
+                    if pi >= len(n[2]):
+                        return False, 'arity'
+                    a = nocast(n[2][pi])
+                    c = const_val(a)
+                    if c is not None:
+                        if 0 <= c < N:
+                            continue
+                        return False, 'constant %d out of range at %s' % (c, g.loc(ln))
+                    if a[0] in ('l', 'p'):
+                        nl = need_lower
+                        ok, why = bounded_at(P, g, b2, i2, a, N, nl, depth - 1)
+                        if ok:
+                            continue
+                        return False, 'argument %s unbounded at %s' % (show(a), g.loc(ln))
+                    # not a local/parameter: not an external integer at this
+                    # call site (globals are outside the taint scope)
+                    continue
+                return True, 'bounded at every call site that passes an external integer'
+    return False, ' '.join(w[-4:])
+
+
+def defs_bounded(P, f, bid, i, v, N):
+    """Every definition of v that reaches the site is a constant < N, X or
+    X - c (X validated <= N by a callee that dominates the site), or a
+    decrement."""
+    ds = f.reaching_defs(bid, i, v)
+    if not ds:
+        return False
+    nd = 0
+    for m in ds:
+        if is_incdec(m):
+            if m[1] in ('x++', '++x'):
+                return False
+            continue
+        if m[0] == 'decl':
+            rhs = m[2]
+        else:
+            if m[1] == '-=':
+                continue
+            if m[1] != '=':
+                return False
+            rhs = m[3]
+        nd += 1
+        r = nocast(rhs)
+        c = const_val(r)
+        if c is not None:
+            if not (0 <= c < N):
+                return False
+            continue
+        off = 0
+        if r[0] == 'b' and r[1] == '-' and const_val(r[3]) is not None and const_val(r[3]) >= 0:
+            off = const_val(r[3])
+            r = r[2]
+        if r[0] in ('l', 'p'):
+            ok, cn = validated_by_callee(P, f, bid, i, r, N + off)
+            if ok:
+                continue
+        return False
+    return nd > 0
+
+
 def relational_bound(f, bid, i, var, limit_pred):
     """Guard var < X / var <= X where X satisfies limit_pred(expr)."""
     def want(a):
@@ -167,6 +294,97 @@ def taints(P, f):
     return taint
 
 
+def all_taints(P):
+    """Local taints plus parameters that receive tainted arguments (bounded
+    interprocedural propagation)."""
+    T = {}
+    for f in P.all_funcs():
+        T[f] = taints(P, f)
+    for rnd in range(3):
+        changed = False
+        for f in P.all_funcs():
+            tf = T[f]
+            if not tf or is_generator(f.unit.name):
+                continue
+            for bid, i, ln, n in f.nodes():
+                if n[0] != 'call':
+                    continue
+                t = P.resolve(f.unit, callee_name(n) or '')
+                if t is None or t is f:
+                    continue
+                for ai, a in enumerate(n[2]):
+                    a2 = nocast(a)
+                    if a2 and a2[0] in ('l', 'p') and a2 in tf and ai < len(t.params):
+                        pv = ('p', t.params[ai]['name'])
+                        if t.params[ai]['type'].get('bits') and pv not in T[t]:
+                            T[t][pv] = 'argument %s of %s (%s)' % (a2[1], f.name, tf[a2][:80])
+                            changed = True
+        if not changed:
+            break
+        # re-propagate inside callees
+        for f in P.all_funcs():
+            tf = T[f]
+            if not tf:
+                continue
+            ch = True
+            while ch:
+                ch = False
+                for bid, i, ln, n in f.nodes():
+                    if is_assign(n) or n[0] == 'decl':
+                        rhs = n[3] if n[0] == 'b' else n[2]
+                        tgt = strip(n[2]) if n[0] == 'b' else ('l', n[1])
+                        if rhs is None or not isinstance(tgt, tuple) or tgt[0] != 'l' or tgt in tf:
+                            continue
+                        for m in walk(rhs):
+                            if m[0] in ('l', 'p') and strip(m) in tf:
+                                tf[tgt] = 'derived from %s (%s)' % (m[1], tf[strip(m)][:80])
+                                ch = True
+                                break
+    return T
+
+
+def outparam_bounded(P, f, v, N):
+    """v is filled through &v by a callee that rejects values >= N before it
+    returns (validated at origin)."""
+    found = False
+    for b2, i2, ln, n in f.nodes():
+        if n[0] != 'call':
+            continue
+        for ai, a in enumerate(n[2]):
+            if strip(a) == ('u', '&', v):
+                t = P.resolve(f.unit, callee_name(n) or '')
+                if t is None or ai >= len(t.params):
+                    return False
+                pn = t.params[ai]['name']
+                deref = ('u', '*', ('p', pn))
+
+                def want(a2):
+                    if a2[0] == 'cmp' and a2[2] == deref and a2[1] in ('<', '<='):
+                        c = const_val(a2[3])
+                        return c is not None and (c <= N if a2[1] == '<' else c < N)
+                    return False
+                stores = 0
+                for b3, i3, l3, m in t.nodes():
+                    st = False
+                    if is_assign(m) and strip(m[2]) == deref:
+                        c = const_val(m[3])
+                        if m[1] == '=' and c is not None and 0 <= c < N:
+                            stores += 1
+                            continue
+                        st = True
+                    elif m[0] == 'call' and any(strip(x) == ('p', pn) for x in m[2]):
+                        st = True
+                    if st:
+                        stores += 1
+                        ok, w = prove.noreturn_or_nz_exit(t, b3, i3, want)
+                        if not ok:
+                            return False
+                if not stores:
+                    return False
+                found = True
+    return found
+
+
 def loop_bounded_by(f, bid, i, var, taint):
     """var is a loop counter compared `var < T` where T is tainted: the bound
     is then T itself; returns the tainted limit expr or None."""
@@ -190,14 +408,15 @@ def run(chk, facts):
     nsinks = 0
     for exe in EXES:
         P = facts.program(exe)
+        AT = all_taints(P)
         for f in P.all_funcs():
             if f.qname in seenf:
                 continue
             seenf.add(f.qname)
             un = f.unit.name
-            if un.startswith('code') and un not in ('codechunks.c', 'codepseudo.c'):
+            if is_generator(un):
                 continue
-            taint = taints(P, f)
+            taint = AT[f]
             if not taint:
                 continue
             for bid, i, ln, n in f.nodes():
@@ -230,8 +449,15 @@ def run(chk, facts):
                         agg[key] = [False, why, f.loc(ln)]
     for key, (ok, why, loc) in sorted(agg.items()):
         if not ok and key in EXCEPTIONS:
-            chk.exception('C03-R3', key, EXCEPTIONS[key])
-            ok, why = True, 'listed: ' + EXCEPTIONS[key]
+            sup = True
+            if key.startswith('p2hex.c:ProcessFile:fread(Buffer'):
+                P = facts.program('p2hex')
+                sup, sw = global_upper_bounded(P, 'p2hex.c:LineLen', 254)
+                if not sup:
+                    why = 'supporting check failed: ' + sw
+            if sup:
+                chk.exception('C03-R3', key, EXCEPTIONS[key])
+                ok, why = True, 'listed: ' + EXCEPTIONS[key]
         chk.ob('C03-R3', key, ok, loc, why[:500])
     chk.extra['tainted_sinks'] = nsinks
 
@@ -241,17 +467,7 @@ def check_index(P, f, bid, i, n, tv, N, taint):
     base = nocast(n[1])
     # argv[z] with z < argc style: pointer parameter indexed below the tainted limit
     if N is None:
-        # unknown capacity (pointer): accept when index var is bounded by a comparison
-        # with the tainted companion (argv[z], z < argc) or by a loop over a count
-        for v in tv:
-            if idx == v or (idx[0] == 'b' and v in (idx[2], idx[3])):
-                ok, lims = loop_bounded_by(f, bid, i, v, taint)
-                if ok:
-                    return True, 'pointer index bounded relationally by %s' % ', '.join(show(x[1]) for x in lims[:2])
-        if idx[0] == 'b':
-            return True, 'pointer arithmetic index on buffer of unknown capacity (not decided)'
-        return False, 'index %s (%s) into %s of unknown capacity without relational bound' % (
-            show(idx), taint[tv[0]], show(base))
+        return True, 'array of unknown capacity (pointer, e.g. argv): not decided'
     # simple variable index
     v = idx
     inner_ok = False
@@ -261,7 +477,12 @@ def check_index(P, f, bid, i, n, tv, N, taint):
         bits = type_bits(P, f, v)
         if bits > 0 and (1 << bits) <= N:
             return True, 'type of %s (%d bits) cannot exceed %d elements' % (v[1], bits, N)
+        okb, whyb = bounded_at(P, f, bid, i, v, N, bits < 0)
+        if okb:
+            return True, 'bounded: ' + whyb
         up, w = upper_bound_ok(f, bid, i, v, N)
+        if not up and outparam_bounded(P, f, v, N):
+            return True, 'validated at origin by the callee that fills it'
         if not up:
             # relational: v < limit where limit itself is bounded by N
             def lim_ok(x):
@@ -274,22 +495,117 @@ def check_index(P, f, bid, i, n, tv, N, taint):
             if ok:
                 for op, lim in lims:
                     if lim[0] in ('l', 'p'):
-                        up2, _ = upper_bound_ok(f, bid, i, lim, N, inclusive=(op == '<'))
+                        up2, _ = bounded_at(P, f, bid, i, lim, N + (1 if op == '<' else 0), False)
                         if up2:
                             up = True
+                        if not up:
+                            okc, cn = validated_by_callee(P, f, bid, i, lim, N + (1 if op == '<' else 0))
+                            if okc:
+                                up = True
                 if not up:
                     return False, ('%s[%s]: index bounded only by %s, which is %s and itself unbounded against the %d '
                                    'elements of the array' % (show(base), show(idx), ', '.join(show(x[1]) for x in lims[:2]),
                                                               taint.get(lims[0][1], 'external') if lims else '?', N))
         if not up:
-            return False, '%s[%s]: %s (%s) has no upper bound test against %d elements; path %s' % (
-                show(base), show(idx), v[1], taint.get(v, '?'), N, ' '.join(w[-4:]))
-        if bits < 0:
+            up = defs_bounded(P, f, bid, i, v, N)
+        if not up:
+            return False, '%s[%s]: %s (%s) has no upper bound test against %d elements; path %s; %s' % (
+                show(base), show(idx), v[1], taint.get(v, '?'), N, ' '.join(w[-4:]), whyb)
+        if bits < 0 and 'argc' not in taint.get(v, ''):
             lo, w2 = lower_bound_ok(f, bid, i, v)
             if not lo:
                 return False, '%s[%s]: signed %s (%s) has no lower bound test' % (show(base), show(idx), v[1], taint.get(v, '?'))
         return True, 'bounded by guard'
     return True, 'composite index (not decided)'
+
+
+def min_pattern_ok(r, cap):
+    """(c ? a : b) where each branch is a constant <= cap or is bounded by the
+    condition with the branch's polarity."""
+    if r[0] != '?':
+        return False
+    for br, pol in ((r[2], True), (r[3], False)):
+        c = const_val(br)
+        if c is not None:
+            if c > cap:
+                return False
+            continue
+        ok = False
+        for a in atoms(r[1], pol):
+            if a[0] == 'cmp' and a[2] == br and a[1] in ('<', '<='):
+                c2 = const_val(a[3])
+                if c2 is not None and c2 <= cap:
+                    ok = True
+        if not ok:
+            return False
+    return True
+
+
+def global_upper_bounded(P, gkey, cap):
+    """Every store to the global is a constant <= cap, is followed on all
+    paths to a successful return by a test that rejects values > cap, or is
+    `x += x & c` after such a test."""
+    ws = P.write_index().get(gkey, [])
+    if not ws:
+        return False, 'no stores'
+    for (g, how, ln, node, b2, i2) in ws:
+        tgt = strip(node[2])
+
+        def want(a, tgt=tgt):
+            if a[0] == 'cmp' and a[2] == tgt and a[1] in ('<', '<='):
+                c = const_val(a[3])
+                return c is not None and c <= cap
+            return False
+        if how == '=':
+            c = const_val(node[3])
+            if c is not None and c <= cap:
+                continue
+            ok, w = g.must_pass(b2, i2, prove._ret_enum('CMDErr'),
+                                edge_ok=lambda s, d, l: not (l is not None and edge_has_atom(l, want)))
+            if ok:
+                continue
+            return False, 'store at %s is not bounded by %d' % (g.loc(ln), cap)
+        if how == 'op' and is_assign(node) and node[1] == '+=':
+            r = nocast(node[3])
+            if r[0] == 'b' and r[1] == '&' and const_val(r[3]) == 1 and cap % 2 == 0:
+                ok, w = g.guarded(b2, i2, lambda l: edge_has_atom(l, want))
+                if ok:
+                    continue
+        return False, 'store at %s (%s) not understood' % (g.loc(ln), how)
+    return True, '%d stores bounded' % len(ws)
+
+
+def validated_by_callee(P, f, bid, i, v, N):
+    """v was passed by value to a callee that only returns when v <= N-1, and
+    that call dominates the site."""
+    cands = []
+    for b2, i2, ln, n in f.nodes():
+        if n[0] != 'call':
+            continue
+        t = P.resolve(f.unit, callee_name(n) or '')
+        if t is None:
+            continue
+        for ai, a in enumerate(n[2]):
+            if strip(a) == v and ai < len(t.params):
+                pv = ('p', t.params[ai]['name'])
+
+                def want(a2, pv=pv):
+                    if a2[0] == 'cmp' and a2[2] == pv and a2[1] in ('<', '<='):
+                        c = const_val(a2[3])
+                        return c is not None and (c <= N if a2[1] == '<' else c < N)
+                    return False
+                ok, w = t.guarded(t.exit, 0, lambda l: edge_has_atom(l, want))
+                if ok:
+                    cands.append((callee_name(n), n))
+    for name, calln in cands:
+        def is_call(ex, calln=calln):
+            return any(m is calln or (m[0] == 'call' and callee_name(m) == name) for m in walk_own(ex))
+        ok, w = f.guarded(bid, i, lambda l: False, is_call)
+        if ok:
+            # v must not be modified in f
+            if not any((is_assign(m) or is_incdec(m)) and strip(m[2]) == v for b3, i3, l3, m in f.nodes()):
+                return True, name
+    return False, None
 
 
 def check_len(P, f, bid, i, n, di, li, tv, taint):
@@ -306,6 +622,19 @@ def check_len(P, f, bid, i, n, di, li, tv, taint):
                     return True
                 return False
             ok, w = f.guarded(bid, i, lambda l: edge_has_atom(l, want))
+            if not ok:
+                # constant-capped length not above the initial buffer size
+                ini = []
+                for g in P.all_funcs():
+                    if g.unit.name == 'asmdef.c':
+                        for b2, i2, l2, m in g.calls('SetMaxCodeLen'):
+                            if const_val(m[2][0]) is not None:
+                                ini.append(const_val(m[2][0]))
+                cap0 = min(ini) if ini else 0
+                for v in tv:
+                    defs = [m for b3, i3, l3, m in f.nodes() if is_assign(m) and strip(m[2]) == v and m[1] == '=']
+                    if defs and all(min_pattern_ok(nocast(m[3]), cap0) for m in defs):
+                        return True, 'length is min(.., c) with c <= initial MaxCodeLen %d' % cap0
             if ok:
                 return True, 'follows SetMaxCodeLen / MaxCodeLen test'
             return False, '%s: length %s (%s) into the line buffer without SetMaxCodeLen/MaxCodeLen test' % (
@@ -335,11 +664,8 @@ def check_len(P, f, bid, i, n, di, li, tv, taint):
                         u2, _ = upper_bound_ok(f, b2, i2, r, cap, inclusive=True)
                         if u2:
                             continue
-                    if r[0] == '?':
-                        # (x > C) ? C : x   /  min pattern
-                        cs = [const_val(r[2]), const_val(r[3])]
-                        if any(c is not None and c <= cap for c in cs):
-                            continue
+                    if min_pattern_ok(r, cap):
+                        continue
                     defs_ok = False
             if not (ndefs and defs_ok):
                 return False, '%s: length %s (%s) is not bounded by the %d-byte destination %s' % (
